@@ -112,7 +112,7 @@ macro_rules! roundtrip {
                 }
             }
             Err(_) => {
-                let info = crate::LAST_PANIC.lock().unwrap().take().unwrap_or_default();
+                let info = crate::take_last_panic().unwrap_or_default();
                 fail(out, &format!("panic:{}", info), format!("{} value {:?}: panicked: {}", $name, $value.to_val(), info));
             }
         }
@@ -542,7 +542,7 @@ pub fn run(p: &Params) -> Outcome {
                             }
                         }
                         Err(_) => {
-                            let info = crate::LAST_PANIC.lock().unwrap().take().unwrap_or_default();
+                            let info = crate::take_last_panic().unwrap_or_default();
                             fail(&mut out, &format!("panic:{}", info), format!("{}: cross-container decode panicked: {}", $name, info));
                         }
                     }
@@ -625,7 +625,7 @@ pub fn run(p: &Params) -> Outcome {
                 Ok(None) => {}
                 Ok(Some((sig, what))) => fail(&mut out, &sig, what),
                 Err(_) => {
-                    let info = crate::LAST_PANIC.lock().unwrap().take().unwrap_or_default();
+                    let info = crate::take_last_panic().unwrap_or_default();
                     fail(&mut out, &format!("panic:{}", info), format!("stream of {} values panicked: {}", items.len(), info));
                 }
             }
